@@ -370,12 +370,20 @@ def raw_offers(v, vec, tier, rnd):
            or not all(any(t['type'] == 4 for t in p['transforms']) for p in c['sa'])]
     pick = rnd.sample(odd, min(len(odd), 70 if tier == 'quick' else 1500)) + rnd.sample(cases, min(len(cases), 20 if tier == 'quick' else 500))
     n = 0
+    # the KE payload in the first group of the first proposal - and, with several proposals, in the first group of each of the others: the suite comes from the
+    # FIRST acceptable proposal whatever group the KE payload is in (INVALID_KE_PAYLOAD then names that suite's group)
+    runs = []
     for c in pick:
+        firsts = [next((t['id'] for t in p['transforms'] if t['type'] == 4), None) for p in c['sa']]
+        ke_groups = []
+        for gq in [firsts[0] if firsts[0] in (19, 20, 21) else 19] + [x for x in firsts[1:] if x in (19, 20, 21)]:
+            if gq not in ke_groups:
+                ke_groups.append(gq)
+        runs += [(c, gq) for gq in ke_groups]
+    for c, ke_group in runs:
         want = c['out']
         w = wd.World(opts_by_ep={'A': {}, 'B': ike_cfg(c['mine'])}, seed=common.SEED)
         try:
-            groups = [t['id'] for t in c['sa'][0]['transforms'] if t['type'] == 4]
-            ke_group = groups[0] if groups and groups[0] in (19, 20, 21) else 19
             props = [{'num': p['num'], 'proto': 1, 'spi': b'', 'transforms': [{'type': t['type'], 'id': t['id'], 'keylen': t['keylen'] or None} for t in p['transforms']]} for p in c['sa']]
             req = W.enc_message({'spi_i': b'\x5c' * 8, 'spi_r': b'\0' * 8, 'xchg': 34, 'response': False, 'initiator': True, 'mid': 0},
                                 [{'t': W.SA, 'proposals': props}, {'t': W.KE, 'group': ke_group, 'data': kdf_ref.dh_public(ke_group, 0x1234567)}, {'t': W.NONCE, 'data': b'\x44' * 32}])
